@@ -351,9 +351,10 @@ PROPS = {
     "C10": {
         "lean_modules": ["Dbg.Props.C10"],
         "theorems": ["Kmer.shipped_wf", "Kmer.shipped_count", "Kmer.C10_get", "Kmer.C10_set", "Kmer.C10_set_inv", "Kmer.C10_extendRight",
-                     "Kmer.C10_extendLeft", "Kmer.C10_fromBytes", "Kmer.C10_rc", "Kmer.C10_toU64", "Kmer.C10_setSlice"],
-        "partial": ["not yet proved (decided by execution against the string-level reference only): from_u64, "
-                    "hamming_dist, at_count/gc_count, to_string, from_ascii, min_rc/is_palindrome, kmers_from_bytes/ascii"],
+                     "Kmer.C10_extendLeft", "Kmer.C10_fromBytes", "Kmer.C10_rc", "Kmer.C10_toU64", "Kmer.C10_setSlice", "Kmer.C10_fromU64",
+                     "Kmer.C10_u64_roundtrip", "Kmer.C10_toString", "Kmer.C10_fromAscii", "Kmer.C10_kmersFromBytes", "Kmer.C10_kmersFromAscii",
+                     "Kmer.C10_hamming", "Kmer.C10_atCount", "Kmer.C10_gcCount"],
+        "partial": [],
         "n_quick": 40000, "n_thorough": 4000000,
         "nontrivial": lambda toks, impl: impl != "panic", "tags": _c10_tags,
         "rule": "requests `<type> <op> <args>` over all 19 shipped k-mer types and 18 operations (get, set, setslice with garbage below the "
